@@ -47,8 +47,10 @@ class Src:
 PAD_SMALL = [(0, 6), (1, 6), (2, 4), (3, 3), (7, 2), (30, 2), (120, 2), (254, 1), (255, 1), (256, 1), (257, 1), (600, 1)]
 PAD_BIG = [(2000, 3), (9000, 2), (32700, 2), (32766, 1), (32767, 1), (32768, 1), (33000, 1), (50000, 1), (63000, 1)]
 FILL = [(0, 6), (1, 5), (2, 4), (5, 3), (20, 2), (42, 1), (43, 1), (60, 1), (200, 1)]
-FAILS = [("error", 5), ("div", 5), ("index", 3), ("longexpr", 3), ("longarr", 2), ("longwrap", 1), ("multi", 3), ("funlit", 3)]
-CALLS = [("ret", 8), ("assign", 3), ("funlit", 3), ("catch", 2), ("multi", 2)]
+FAILS = [("error", 5), ("div", 5), ("index", 3), ("longexpr", 3), ("longarr", 2), ("longwrap", 1), ("multi", 3), ("funlit", 3),
+         ("funlit2", 2), ("funlitml", 2)]
+CALLS = [("ret", 8), ("assign", 3), ("funlit", 3), ("funlit2", 2), ("funlitml", 2), ("catch", 2), ("multi", 2)]
+CALLS_PLAIN = [("ret", 8), ("assign", 3), ("catch", 2), ("multi", 2)]
 
 
 class Gen:
@@ -75,27 +77,38 @@ class Gen:
 
     # -- function bodies ---------------------------------------------------
     def fn_call(self, src, name, nxt, prog, obj, frames):
-        """non-final chain function `name` calling `nxt`; appends this frame's trace records to frames"""
+        """non-final chain function `name` calling the next one; `nxt` is a function name, `::name` (call of the
+        inherited definition) or a callable arg -> call expression (call_other); appends this frame's trace records"""
         r = self.rng
-        kind = r.weighted(CALLS)
+        call = nxt if callable(nxt) else (lambda a: "%s(%s)" % (nxt, a))
+        kinds = CALLS if not (isinstance(nxt, str) and nxt.startswith("::")) else CALLS_PLAIN
+        kind = r.weighted(kinds)
         src.text("int %s(int k) {\n" % name)
         src.pad("s", r.weighted(FILL))
         if r.chance(1, 4):
             src.pad(r.choice(["n", "c"]), r.range(1, 3))
         lo = src.line
+        nlit = 0
         if kind == "ret":
-            src.text("  return %s(k) + 1;\n" % nxt)
+            src.text("  return %s + 1;\n" % call("k"))
         elif kind == "assign":
-            src.text("  x_ = %s(k);\n" % nxt)
+            src.text("  x_ = %s;\n" % call("k"))
         elif kind == "funlit":
-            src.text("  return evaluate((: %s($1) :), k) + 1;\n" % nxt)
+            src.text("  return evaluate((: %s :), k) + 1;\n" % call("$1"))
+            nlit = 1
+        elif kind == "funlit2":
+            src.text("  return evaluate((: evaluate((: %s + 2 :), $1) :), k) + 1;\n" % call("$1"))
+            nlit = 2
+        elif kind == "funlitml":
+            src.text("  return evaluate((:\n      %s\n        + 1\n    :), k) + 1;\n" % call("$1"))
+            nlit = 1
         elif kind == "catch":
-            src.text("  return catch(%s(k)) ? 1 : 0;\n" % nxt)
+            src.text("  return catch(%s) ? 1 : 0;\n" % call("k"))
         else:
-            src.text("  x_ = 3 +\n    %s(k);\n" % nxt)
+            src.text("  x_ = 3 +\n    %s;\n" % call("k"))
         hi = src.line - 1
         frames.append((name, prog, obj, src.name, lo, hi))
-        if kind == "funlit":
+        for _ in range(nlit):
             frames.append(("<function>", prog, obj, src.name, lo, hi))
         src.pad("s", r.weighted(FILL))
         src.text("  return x_;\n}\n")
@@ -147,11 +160,15 @@ class Gen:
             self.meta["long"] = n
         elif kind == "multi":
             src.text("  x_ = 7 +\n\n    (10 / k);\n")
+        elif kind == "funlit2":
+            src.text("  return evaluate((: evaluate((: 10 / $1 :), $1) + 1 :), k);\n")
+        elif kind == "funlitml":
+            src.text("  return evaluate((:\n      $1 +\n      10 / $1\n    :), k);\n")
         else:  # funlit
             src.text("  return evaluate((: 10 / $1 :), k);\n")
         hi = src.line - 1
         frames.append((name, prog, obj, src.name, lo, hi))
-        if kind == "funlit":
+        for _ in range({"funlit": 1, "funlitml": 1, "funlit2": 2}.get(kind, 0)):
             frames.append(("<function>", prog, obj, src.name, lo, hi))
         if not kind.startswith("sized:"):
             src.pad("s", r.weighted(FILL))
@@ -215,47 +232,73 @@ class Gen:
         return files, caught, err
 
     def build(self, fail_kind=None, depth=None, bdepth=None, nchild=None, nbase=None, binary=None, fail_slot=None,
-              prepad=None, kind="plain"):
+              prepad=None, kind="plain", other=None, override=None):
+        """chain of calls: child functions (object m) -> [child's override b1 calling ::b1] -> inherited functions, or
+        child functions -> call_other into object `other` -> its functions -> [functions other inherits]"""
         r = self.rng
         depth = r.weighted([(0, 3), (1, 4), (2, 3), (3, 2)]) if depth is None else depth
-        inherit = r.chance(2, 5) if nbase is None else nbase > 0
+        inherit = r.chance(1, 2) if nbase is None else nbase > 0
         nchild = r.range(1, 4) if nchild is None else nchild
         nbase = (r.range(1, 3) if inherit else 0) if nbase is None else nbase
-        binary = r.chance(1, 4) if binary is None else binary
+        binary = r.chance(1, 3) if binary is None else binary
+        other = r.chance(1, 3) if other is None else other
+        override = (inherit and not other and r.chance(1, 2)) if override is None else (override and inherit and not other)
         d = self.d
         cprog, cobj = "%s/m.c" % d.lstrip("/"), "%s/m" % d
+        oprog, oobj = "%s/other.c" % d.lstrip("/"), "%s/other" % d
         bprog = "%s/base.c" % d.lstrip("/")
         cf = ["go"] + ["f%d" % i for i in range(1, nchild)]
         bf = ["b%d" % i for i in range(1, nbase + 1)]
+        of = ["o%d" % i for i in range(1, r.range(1, 3) + 1)] if other else []
         frames = []
-        head = ("#pragma save_binary\n" if binary else "")
-        if inherit:
-            head += 'inherit "%s/base";\n' % d
+        pragma = "#pragma save_binary\n" if binary else ""
+        caught = False
+        allfiles = []
+
+        def head_for(fns, inh):
+            h = pragma + (('inherit "%s/base";\n' % d) if inh else "int x_;\n")
+            return h + "void set_oid(string s) {}\n" + "".join("int %s(int k);\n" % f for f in fns)
+
+        if other:
+            nxt_child = (lambda a: '"%s"->%s(%s)' % (oobj, of[0], a)) if r.chance(1, 2) else \
+                        (lambda a: 'call_other("%s", "%s", %s)' % (oobj, of[0], a))
+            files, c1, _ = self.program("%s/m.c" % d, cf, nxt_child, (cprog, cobj), frames, head_for(cf[1:], False),
+                                        depth, fail_kind, None, prepad)
+            ofiles, c2, _ = self.program("%s/other.c" % d, of, bf[0] if bf else None, (oprog, oobj), frames,
+                                         head_for(of[1:], inherit), r.weighted([(0, 3), (1, 2)]), fail_kind,
+                                         None if bf else fail_slot)
+            allfiles = ofiles + files
+            caught = c1 or c2
+            run_obj = oobj
         else:
-            head += "int x_;\n"
-        head += "void set_oid(string s) {}\n" + "".join("int %s(int k);\n" % f for f in cf[1:])
-        files, caught, err = self.program("%s/m.c" % d, cf, bf[0] if bf else None, (cprog, cobj), frames, head, depth,
-                                          fail_kind, None if bf else fail_slot, prepad)
-        allfiles = list(files)
+            cfn = cf + ([bf[0]] if override else [])
+            nxt_child = ("::" + bf[0]) if override else (bf[0] if bf else None)
+            files, caught, _ = self.program("%s/m.c" % d, cfn, nxt_child, (cprog, cobj), frames,
+                                            head_for(cfn[1:], inherit), depth, fail_kind, None if bf else fail_slot, prepad)
+            allfiles = list(files)
+            run_obj = cobj
         if inherit:
             bdepth = r.weighted([(0, 3), (1, 2), (2, 1)]) if bdepth is None else bdepth
-            bhead = ("#pragma save_binary\n" if binary else "") + "int x_;\n" + "".join("int %s(int k);\n" % f for f in bf[1:])
-            bfiles, c2, err2 = self.program("%s/base.c" % d, bf, None, (bprog, cobj), frames, bhead, bdepth, fail_kind,
-                                            fail_slot)
+            bhead = pragma + "int x_;\n" + "".join("int %s(int k);\n" % f for f in bf[1:])
+            bfiles, c3, _ = self.program("%s/base.c" % d, bf, None, (bprog, run_obj), frames, bhead, bdepth, fail_kind,
+                                         fail_slot)
             allfiles = bfiles + allfiles
-            caught = caught or c2
-            err = err2
+            caught = caught or c3
         # `go` is called without arguments: k = 0 everywhere
         last = frames[-1]
         exp = "expect kind=%s file=%s lines=%d-%d program=%s object=%s trace=%s" % (
             kind, last[3], last[4], last[5], last[1], last[2],
             "|".join("%s@%s@%s@%s@%d-%d" % f for f in frames))
         lines = [s.cmd() for s in allfiles]
-        lines += ["load o1 %s/m" % d, "apply o1 go", "dump o1", exp]
+        loads = (["load o3 %s/base" % d] if inherit else []) + (["load o2 %s/other" % d] if other else []) + \
+            ["load o1 %s/m" % d]
+        lines += loads + ["apply o1 go", "dump o1"] + (["dump o2"] if other else []) + [exp]
         if binary:
-            lines += ["unload o1", "load o1 %s/m" % d, "apply o1 go", "dump o1", exp]
-        self.meta.update({"depth": depth, "inherit": inherit, "binary": binary, "caught": caught,
-                          "maxline": max(s.line for s in allfiles)})
+            # every program of the family is dropped and comes back from its saved binary
+            lines += ["unload o1"] + (["unload o2"] if other else []) + (["unload o3"] if inherit else [])
+            lines += loads + ["apply o1 go", "dump o1"] + (["dump o2"] if other else []) + [exp]
+        self.meta.update({"depth": depth, "inherit": inherit, "binary": binary, "caught": caught, "other": bool(other),
+                          "override": bool(override), "maxline": max(s.line for s in allfiles)})
         return lines
 
 
@@ -270,7 +313,7 @@ def case_init(tag, pad=3, funcs=0):
     ln = m.line
     m.text("mixed g_ = 10 / z_;\nint go() { return 1; }\n")
     p, o = "%s/m.c" % d.lstrip("/"), "%s/m" % d
-    exp = "expect kind=init file=%s lines=%d-%d program=%s object=%s trace=#global_init#@%s@%s@%s@%d-%d" % (
+    exp = "expect kind=plain phase=load file=%s lines=%d-%d program=%s object=%s trace=#global_init#@%s@%s@%s@%d-%d" % (
         p, ln, ln, p, o, p, o, p, ln, ln)
     return [m.cmd(), "load o1 %s/m" % d, exp]
 
@@ -289,8 +332,84 @@ def case_reinclude(tag, first_ok=False):
     p, o = "%s/m.c" % d.lstrip("/"), "%s/m" % d
     fn = "fa" if first_ok else "fb"
     exp = "expect kind=%s file=%s lines=%d-%d program=%s object=%s trace=go@%s@%s@%s@%d-%d|%s@%s@%s@%s@%d-%d" % (
-        "plain" if first_ok else "reinclude", t.name, tl, tl, p, o, p, o, p, gl, gl, fn, p, o, t.name, tl, tl)
+        "plain", t.name, tl, tl, p, o, p, o, p, gl, gl, fn, p, o, t.name, tl, tl)
     return [m.cmd(), t.cmd(), "load o1 %s/m" % d, "apply o1 go", "dump o1", exp]
+
+
+def case_multi_include(tag, variant, rng=None):
+    """headers included more than once: `again` = three copies of one header selected by a macro, `self` = a header
+    that includes itself once (guarded), `back` = a.h includes b.h which includes a.h again (guarded); the failing
+    statement sits behind the inner inclusion, so its line must not be shifted by the copies read before"""
+    d = "/c18/%s" % tag
+    p, o = "%s/m.c" % d.lstrip("/"), "%s/m" % d
+    m = Src("%s/m.c" % d)
+    m.text("int x_;\nvoid set_oid(string s) {}\n")
+    files = [m]
+    pad = (lambda src: src.pad("n", rng.range(0, 40))) if rng else (lambda src: None)
+    if variant == "again":
+        t = Src("%s/t.h" % d)
+        t.text("// t\n")
+        pad(t)
+        t.text("int FN(int k) {\n")
+        tl = t.line
+        t.text("  x_ = 10 / k;\n  return x_;\n}\n")
+        pad(t)
+        which = rng.range(0, 2) if rng else 2
+        for i, fn in enumerate(("fa", "fb", "fc")):
+            pad(m)
+            m.text('#define FN %s\n#include "t.h"\n#undef FN\n' % fn)
+        gl = m.line
+        args = ["1", "1", "1"]
+        args[which] = "0"
+        m.text("int go() { return fa(%s) + fb(%s) + fc(%s); }\n" % tuple(args))
+        fn = ("fa", "fb", "fc")[which]
+        frames = [("go", p, o, p, gl, gl), (fn, p, o, t.name, tl, tl)]
+        files.append(t)
+    elif variant == "self":
+        t = Src("%s/t.h" % d)
+        t.text("// t\n#ifndef T_ONCE\n#define T_ONCE\n")
+        pad(t)
+        t.text('#include "t.h"\n')
+        pad(t)
+        t.text("int fa(int k) {\n")
+        tl = t.line
+        t.text("  x_ = 10 / k;\n  return x_;\n}\n#endif\n")
+        pad(m)
+        m.text('#include "t.h"\n')
+        pad(m)
+        gl = m.line
+        m.text("int go() { return fa(0); }\n")
+        frames = [("go", p, o, p, gl, gl), ("fa", p, o, t.name, tl, tl)]
+        files.append(t)
+    else:  # back
+        a = Src("%s/a.h" % d)
+        b = Src("%s/b.h" % d)
+        a.text("// a\n#ifndef A_ONCE\n#define A_ONCE\n")
+        pad(a)
+        a.text('#include "b.h"\n')
+        pad(a)
+        a.text("int fa(int k) {\n")
+        al = a.line
+        a.text("  x_ = 10 / k;\n  return x_;\n}\n#endif\n// tail of a\n")
+        b.text("// b\n")
+        pad(b)
+        b.text('#include "a.h"\n')
+        pad(b)
+        b.text("int fb(int k) {\n")
+        bl = b.line
+        b.text("  return fa(k) + 1;\n}\n")
+        m.text("int fa(int k);\n")
+        pad(m)
+        m.text('#include "a.h"\n')
+        pad(m)
+        gl = m.line
+        m.text("int go() { return fb(0); }\n")
+        frames = [("go", p, o, p, gl, gl), ("fb", p, o, b.name, bl, bl), ("fa", p, o, a.name, al, al)]
+        files += [a, b]
+    last = frames[-1]
+    exp = "expect kind=plain file=%s lines=%d-%d program=%s object=%s trace=%s" % (
+        last[3], last[4], last[5], p, o, "|".join("%s@%s@%s@%s@%d-%d" % f for f in frames))
+    return [f.cmd() for f in files] + ["load o1 %s/m" % d, "apply o1 go", "dump o1", exp]
 
 
 class C18(Prop):
@@ -298,17 +417,21 @@ class C18(Prop):
     title = "Runtime errors are reported at the right file and line with a correct trace"
     lean_modules = ["NV.C18.Props", "NV.C18.Witness"]
     theorems = ["NV.C18.line_roundtrip_raw", "NV.C18.line_roundtrip", "NV.C18.long_statement_ok",
-                "NV.C18.file_roundtrip", "NV.C18.file_roundtrip_partial", "NV.C18.trace_order",
-                "NV.C18.runEms_li", "NV.C18.translateAbs_at"]
+                "NV.C18.file_roundtrip", "NV.C18.file_roundtrip_ids", "NV.C18.file_roundtrip_partial",
+                "NV.C18.fresh_idsOf", "NV.C18.trace_order",
+                "NV.C18.runEms_li", "NV.C18.translateAbs_at", "NV.C18.widths_agree"]
     witness_theorems = ["NV.C18.file_roundtrip_Full_false", "NV.C18.line_roundtrip_Full_false",
-                        "NV.C18.reinclude_wrong", "NV.C18.wide_wrong", "NV.C18.signed_short_wrong",
-                        "NV.C18.init_block_ignored", "NV.C18.init_replay"]
+                        "NV.C18.reinclude_wrong", "NV.C18.reinclude_repaired", "NV.C18.wide_wrong", "NV.C18.signed_short_wrong",
+                        "NV.C18.init_block_only_noted", "NV.C18.init_replay"]
     consts = [("aProgram", "A_PROGRAM"), ("aInitializer", "A_INITIALIZER"),
               ("frameFunction", "FRAME_FUNCTION"), ("frameFunp", "FRAME_FUNP"), ("frameCatch", "FRAME_CATCH"),
               ("frameFake", "FRAME_FAKE"), ("frameMask", "FRAME_MASK"),
               ("ucharMax", "UCHAR_MAX"), ("shortBits", "8*sizeof(short)"),
               ("progSizeBits", "8*sizeof(((program_t*)0)->program_size)"),
-              ("nodeLineBits", "8*sizeof(((parse_node_t*)0)->line)")]
+              ("nodeLineBits", "8*sizeof(((parse_node_t*)0)->line)"),
+              ("fileInfoBits", "8*sizeof(*((program_t*)0)->file_info)"),
+              ("lineInfoLenBits", "8*sizeof(*((program_t*)0)->line_info)"),
+              ("aInitLines", "A_INIT_LINES")]
     const_headers = ["src/interpret.h", "lpc/program.h", "lpc/compiler.h", "lpc/program/parse_trees.h"]
     quick_n = 500
     thorough_n = 5000
@@ -348,10 +471,11 @@ class C18(Prop):
         self.conf = E.make_mudlib(ctx.rundir, master="/c18/master.c", extra_conf="SaveBinaryDir /bin\n")
 
     def canon(self, lines):
-        # recoverable UBSan `pointer-overflow` reports (relative pointer arithmetic of binaries.c:locate_in when a saved
-        # binary is loaded; see engine.SAN_FLAGS) are not an observation about C18: the run continues and is judged
+        # a recoverable UBSan `pointer-overflow` report of binaries.c:locate_in (`ADD (prog->inherit, prog)` on a program
+        # without inherits: NULL offset + base) still shows up for a few address layouts when a saved binary is loaded;
+        # it is not an observation about C18: the run continues and is judged
         return [l.rstrip() for l in lines if l.strip() != ""
-                and not (l.startswith("sanitizer ") and "pointer index expression" in l)]
+                and not (l.startswith("sanitizer ") and "binaries.c" in l and "pointer index expression" in l)]
 
     def run_impl(self, ctx, cases):
         res = E.run_harness(self.exe, self.conf, cases, ctx.rundir, timeout=3000)
@@ -373,6 +497,14 @@ class C18(Prop):
         out = []
         for i in range(n):
             tag = "g%d_%d" % (rng.below(100000), i)
+            if rng.chance(1, 14):
+                v = rng.choice(["again", "self", "back"])
+                out.append(E.Case("g%d" % i, case_multi_include(tag, v, rng), {"fail": "reinclude", "origin": "generated"}))
+                continue
+            if rng.chance(1, 20):
+                out.append(E.Case("g%d" % i, case_init(tag, pad=rng.range(0, 300), funcs=rng.range(0, 4)),
+                                  {"fail": "init", "origin": "generated"}))
+                continue
             big = rng.chance(1, 12) if tier != "thorough" else rng.chance(1, 10)
             g = Gen(rng, tag, big=big, thorough=(tier == "thorough"))
             out.append(E.Case("g%d" % i, g.build(), dict(g.meta, origin="generated")))
@@ -387,6 +519,8 @@ class C18(Prop):
 
         def gen(name, **kw):
             g = Gen(rng, "b_" + name.replace("-", "_"))
+            kw.setdefault("other", False)
+            kw.setdefault("override", False)
             lines = g.build(**kw)
             mk(name, lines, **g.meta)
 
@@ -404,20 +538,29 @@ class C18(Prop):
             gen("lines%d" % n, fail_kind="div", depth=0, nchild=1, nbase=0, binary=False, prepad=("n", n))
         gen("lines40000-inc", fail_kind="error", depth=2, nchild=3, nbase=0, binary=True, prepad=("c", 40000))
         gen("fillers3000", fail_kind="index", depth=1, nchild=2, nbase=0, binary=False, prepad=("n", 1))
-        for k in ("funlit", "longwrap", "longarr", "multi"):
+        for k in ("funlit", "funlit2", "funlitml", "longwrap", "longarr", "multi"):
             gen("kind-" + k, fail_kind=k, depth=1, nchild=2, nbase=1, binary=True)
+        # inherited programs reached through `::` and through call_other, fresh and from the saved binaries
+        for i, k in enumerate(("div", "funlit2", "error")):
+            gen("override-%d" % i, fail_kind=k, depth=i, bdepth=1, nchild=2, nbase=2, binary=(i != 1), override=True)
+            gen("other-inh-%d" % i, fail_kind=k, depth=1, bdepth=i % 2, nchild=2, nbase=2, binary=(i != 0), other=True)
+        gen("other-plain", fail_kind="funlitml", depth=2, nchild=3, nbase=0, binary=True, other=True)
         g = Gen(rng, "b_wide")
-        mk("wide70000", g.build(fail_kind="div", depth=0, nchild=1, nbase=0, binary=False, prepad=("n", 70000), kind="wide"),
+        mk("wide70000", g.build(fail_kind="div", depth=0, nchild=1, nbase=0, binary=False, prepad=("n", 70000), kind="wide",
+                                other=False, override=False),
            **g.meta)
         mk("init", case_init("b_init"), fail="init")
         mk("init-after-functions", case_init("b_init2", pad=40, funcs=3), fail="init")
+        for v in ("again", "self", "back"):
+            mk("multi-include-" + v, case_multi_include("b_mi_" + v, v), fail="reinclude")
+            mk("multi-include-pad-" + v, case_multi_include("b_mip_" + v, v, rng), fail="reinclude")
         mk("reinclude-second", case_reinclude("b_reinc"), fail="reinclude")
         mk("reinclude-first", case_reinclude("b_reinc1", first_ok=True), fail="reinclude-first")
         return B
 
     def histogram(self, cases, impl):
-        h = {"fail": {}, "calls": {}, "depth": {}, "slots": {}, "inherit": 0, "binary": 0, "caught": 0, "long": 0,
-             "maxline_ge_255": 0, "maxline_ge_32768": 0, "eh_lines": 0}
+        h = {"binary_all_reloaded_from_binary": 0, "binary_some_recompiled": 0, "fail": {}, "calls": {}, "depth": {}, "slots": {}, "inherit": 0, "binary": 0, "caught": 0, "long": 0,
+             "maxline_ge_255": 0, "maxline_ge_32768": 0, "eh_lines": 0, "other": 0, "override": 0}
         for c in cases:
             m = c.meta
             if "fail" in m:
@@ -428,7 +571,7 @@ class C18(Prop):
                 h["slots"][k] = h["slots"].get(k, 0) + 1
             if "depth" in m:
                 h["depth"][str(m["depth"])] = h["depth"].get(str(m["depth"]), 0) + 1
-            for k in ("inherit", "binary", "caught"):
+            for k in ("inherit", "binary", "caught", "other", "override"):
                 if m.get(k):
                     h[k] += 1
             if m.get("long"):
@@ -438,6 +581,9 @@ class C18(Prop):
             if m.get("maxline", 0) >= 32768:
                 h["maxline_ge_32768"] += 1
             h["eh_lines"] += sum(1 for l in impl.get(c.id, []) if l.startswith("eh "))
+            if m.get("binary"):
+                evs = [l.split()[1] for l in impl.get(c.id, []) if l.startswith("ev ")]
+                h["binary_all_reloaded_from_binary" if len(evs) == len(set(evs)) else "binary_some_recompiled"] += 1
         return h
 
 
